@@ -291,6 +291,9 @@ func runC09(c *Check, a *Analysis) {
 		})
 	}
 
+	ruleUpgradeOwner(c, a, "R-UPGRADE-OWNER")
+	ruleStreamCtxStable(c, a, "R-STREAM-CTX-STABLE")
+
 	// ---- alias / use-after-release for stream payloads
 	ruleAliasSinks(c, a, "R-ALIAS", FieldRef{"event", "Value"})
 	ruleStreamReadCopy(c, a, "R-STREAM-COPY")
@@ -594,4 +597,132 @@ func runC10(c *Check, a *Analysis) {
 		}
 	}
 	c.Ob("R-CLOSE-STREAM", "reader#delete(Conn.streams) on close ack", token.NoPos, nd > 0, ifs(nd == 0, "the client never removes a closed stream from Conn.streams: NumCalls stays non-zero and the connection is never reclaimed"))
+}
+
+// ruleUpgradeOwner (shared by C06 and C09): the response reader may return a
+// looked-up call's upgrade object to its pool only for call kinds whose owner
+// never touches it again — plain calls (NoResponse clear), pings and stream
+// closes. The opening call of a stream keeps using its upgrade for the
+// stream's lifetime (NewStream switches its phase, every stream write shares
+// it), so no recycle may be reachable for it — in particular not on the error
+// arm, which every kind of call can take.
+func ruleUpgradeOwner(c *Check, a *Analysis, rule string) {
+	p := c.P
+	c.Rule(rule, "in the response reader, putUpgrade of a looked-up call's upgrade is dominated by a test that excludes stream-open/streaming calls: NoResponse != 1 (plain call), Heartbeat == 1 (ping) or Stream == closeStream", 2)
+	sc := siteCounter{}
+	n := 0
+	for _, l := range pendingOps(p, "lookup") {
+		fn := l.Fn
+		if len(pendingOps2(p, topParent(fn), "update")) > 0 {
+			continue
+		}
+		lk := l.Instr.(*ssa.Lookup)
+		for _, f := range withClosures(fn) {
+			for _, call := range callsIn(f, "putUpgrade") {
+				arg := call.Common().Args[0]
+				fromCall := false
+				for _, o := range p.origins(arg) {
+					if fr, base, ok := fieldOfLoad(p.canon(o)); ok && fr.Struct == "Call" && fr.Field == "upgrade" && p.sameVarOrigin(base, lk) {
+						fromCall = true
+					}
+				}
+				if !fromCall {
+					continue
+				}
+				n++
+				in := call.(ssa.Instruction)
+				g1, _ := p.guardedBy(in, negate(matchFieldEqConst("upgrade", "NoResponse", 1)))
+				g2, _ := p.guardedBy(in, matchFieldEqConst("upgrade", "Heartbeat", 1))
+				g3, _ := p.guardedBy(in, matchFieldEqConst("upgrade", "Stream", 3))
+				ok := g1 || g2 || g3
+				c.Ob(rule, sc.key(f, "putUpgrade(call.upgrade) only for plain/ping/close calls"), p.InstrPos(in), ok, ifs(!ok, "the reader recycles the upgrade object of a call that may be a stream-opening call: NewStream and the stream's writes keep using it, so the pool hands a dirty (Stream=streaming) upgrade to a later ordinary call, which is then sent as a stream message on a nil stream"))
+			}
+		}
+	}
+	if n == 0 {
+		c.Undecided(rule, "no putUpgrade of a looked-up call's upgrade found in the reader")
+	}
+}
+
+// ruleStreamCtxStable (C09): the fields of the stream-opening request Context
+// that the server's push closure reads stay untouched on the open-stream path
+// of sendResponse (the context lives as long as the stream).
+func ruleStreamCtxStable(c *Check, a *Analysis, rule string) {
+	p := c.P
+	c.Rule(rule, "on the open-stream arm of sendResponse the long-lived request Context is neither overwritten as a whole nor has any field stored that the stream's push closure reads (Seq, codec, …)", 1)
+	sr := p.Fn("(*Server).ServeRequest")
+	sp := p.Fn("(*Server).sendResponse")
+	if sr == nil || sp == nil {
+		c.Undecided(rule, "ServeRequest / sendResponse not found")
+		return
+	}
+	// read set of the push closure (the closure stored into stream.write)
+	reads := map[string]bool{}
+	eachInstr(sr, func(in ssa.Instruction) {
+		st, ok := in.(*ssa.Store)
+		if !ok {
+			return
+		}
+		fr, _, ok := fieldOfAddr(st.Addr)
+		if !ok || fr.Struct != "stream" || fr.Field != "write" {
+			return
+		}
+		mc, ok := st.Val.(*ssa.MakeClosure)
+		if !ok {
+			return
+		}
+		cl := mc.Fn.(*ssa.Function)
+		eachInstr(cl, func(x ssa.Instruction) {
+			if v, ok := x.(ssa.Value); ok {
+				if f, base, ok := fieldOfLoad(v); ok && f.Struct == "Context" {
+					// through the captured request context
+					if _, isFV := p.canon(base).(*ssa.Parameter); isFV || p.localCell(baseAddr(base)) != nil || true {
+						if pn, ok := p.varKey(base).(*ssa.Parameter); ok && pn.Parent() == sr {
+							reads[f.Field] = true
+						}
+					}
+				}
+			}
+		})
+	})
+	if len(reads) == 0 {
+		c.Undecided(rule, "the push closure's reads of the request context could not be determined")
+		return
+	}
+	edges, n := p.guardEdges(sp, matchFieldEqConst("upgrade", "Stream", 1))
+	if n == 0 {
+		c.Undecided(rule, "sendResponse has no open-stream arm")
+		return
+	}
+	ctxParam := ssa.Value(sp.Params[1])
+	for e := range edges {
+		var why string
+		w, _, bad := p.reachFromBlock(sp, e.to, func(x ssa.Instruction) bool {
+			st, ok := x.(*ssa.Store)
+			if !ok {
+				return false
+			}
+			if p.canon(st.Addr) == ctxParam || p.varKey(st.Addr) == interface{}(ctxParam) {
+				why = "the whole Context is overwritten"
+				return true
+			}
+			if fr, base, ok := fieldOfAddr(st.Addr); ok && fr.Struct == "Context" && reads[fr.Field] && p.varKey(base) == interface{}(ctxParam) {
+				why = "Context." + fr.Field + " is overwritten"
+				return true
+			}
+			return false
+		}, nil, nil)
+		det := ""
+		if bad {
+			det = "after the open acknowledgement " + why + " at " + p.At(w) + ", but the stream's push closure keeps reading it: every pushed message is sent under a wrong sequence number / codec"
+		}
+		c.Ob(rule, fname(sp)+"#open-stream context keeps the fields the push closure reads", p.InstrPos(e.to.Instrs[0]), !bad, det)
+	}
+}
+
+func baseAddr(v ssa.Value) ssa.Value {
+	if u, ok := v.(*ssa.UnOp); ok {
+		return u.X
+	}
+	return v
 }
